@@ -26,6 +26,7 @@ META["explanation"] += ' R19.8 ManuallyDrop ledger: every owned share of the own
 META["explanation"] += " R19.10 (async flavour) the completed lock future is re-armed before anything that can run foreign code (the value's Clone, the waker's clone, a closure): a panic in between leaves the subscriber with one reference for the rest of its life. R19.11 no hidden handles: a clone of a SharedObservable / Subscriber made inside the crate is not moved into a closure / future the function returns."
 META["explanation"] += ' R19.12 no handle (Subscriber / SharedObservable) is created before an await inside the async API (it would live in the pending future and be counted).'
 META["explanation"] += ' Shared: the re-arm pairing of the async poll functions (the prepared lock request is one of the counted references only if every completed request is replaced before the poll returns).'
+META["explanation"] += ' R19.9 also treats a field typed with an associated type of the Lock trait as owning what the impls of that associated type own.'
 
 SH = "shared::SharedObservable<"
 
@@ -396,6 +397,13 @@ def r19_9(ctx):
     handed to users that owns one (e.g. an `Owned*Guard` as a Lock impl's guard type) is counted by strong_count while it lives."""
     F = ctx.facts
     n = 0
+    # associated types of the Lock trait that are owning types in some impl (`SubscriberState = SharedReadLock<..>`, `Shared = ..`):
+    # a field typed `<L as Lock>::SubscriberState<T>` owns whatever the impls say
+    owning_assoc = set()
+    for im in [x for x in F.impls if x.get("crate") == EY and x.get("trait") == "lock::Lock"]:
+        for at in im.get("assoc_types", []):
+            if re.search(OWNING, at["ty"]) or re.search(r"AsyncSubscriberState<|readlock(_tokio)?::Shared<", at["ty"]):
+                owning_assoc.add(at["name"])
     for a in [x for x in F.adts.values() if x.get("crate") == EY]:
         if a["path"] in COUNTED or a["path"].startswith("state::"):
             continue
@@ -403,6 +411,10 @@ def r19_9(ctx):
             for fd in v["fields"]:
                 n += 1
                 m = re.search(OWNING, fd["ty"])
+                if not m and not fd["ty"].startswith("&"):
+                    pm = re.search(r"(?:<\w+ as lock::Lock>|\b[A-Z]\w*)::(\w+)<", fd["ty"])
+                    if pm and pm.group(1) in owning_assoc and not pm.group(1).endswith("Guard"):
+                        m = pm
                 where = "%s:%s" % (a["span"]["file"], a["span"]["line"])
                 if m and not fd["ty"].startswith("&"):
                     ctx.violated("R19.9", "type:" + a["path"], "owns-state-reference:%s" % fd["name"], where,
